@@ -1327,7 +1327,7 @@ impl EndpointHandler<u32> for Rec {
     }
 }
 
-const PATHS: [&str; 13] = ["", "/", "/a", "/a/", "/a/b", "/ab", "/a:b", ":", "/GET:/a", "/api/a", "/fwd/http://up/a", "/\u{e9}/a", "//a"];
+const PATHS: [&str; 16] = ["", "/", "/a", "/a/", "/a/b", "/ab", "/a:b", ":", "/GET:/a", "/api/a", "/fwd/http://up/a", "/\u{e9}/a", "//a", "/a/:id", "/a/7", "/:p/b"];
 const PREFIXES: [&str; 5] = ["", "/api", "/a", "/api/", "/"];
 
 thread_local! {
@@ -1941,7 +1941,7 @@ fn c17_plan(tier: Tier) -> Vec<Job> {
         Job { sub: "nested", kind: JobKind::Pbt { cases: if q { 100_000 } else { 2_000_000 }, max_len: 120 }, smallbuf: false },
         Job { sub: "long", kind: JobKind::Enum { f: c17_long_enum, bound: "sibling routes on paths of every length 2..399 (thorough: ..879), with and without a prefix, probed with the exact path, one-byte extensions, a truncation, 3 methods, origin and absolute form" }, smallbuf: false },
         Job { sub: "authority", kind: JobKind::Enum { f: c17_authority_enum, bound: "absolute-form requests with an authority of every length 0..300 and within 24 of 2^10, 2^12, 2^15, 2^16, 2^17 (thorough: also 2^20, 2^24), ASCII and two-byte characters, x 2 prefixes x 6 paths" }, smallbuf: false },
-        Job { sub: "small", kind: JobKind::Enum { f: c17_small_enum, bound: "5 prefixes x all ordered route tables of <= 2 (quick) / <= 3 (thorough) registrations over 3 methods x 13 paths (one starting with //) (duplicates included) x all requests over the same alphabet in origin-form and three absolute forms (one with a non-ASCII authority), with and without the prefix" }, smallbuf: false },
+        Job { sub: "small", kind: JobKind::Enum { f: c17_small_enum, bound: "5 prefixes x all ordered route tables of <= 2 (quick) / <= 3 (thorough) registrations over 3 methods x 16 paths (one starting with //, three with or against a `:name` segment) (duplicates included) x all requests over the same alphabet in origin-form and three absolute forms (one with a non-ASCII authority), with and without the prefix" }, smallbuf: false },
     ]
 }
 
